@@ -146,6 +146,45 @@ def big_hash(rep):
     return n
 
 
+HIGH_DEGREE_SRC = """
+import sys, resource
+cap = int(float(sys.argv[2]) * 2**30)
+resource.setrlimit(resource.RLIMIT_AS, (cap, cap))
+import stereomolgraph as smg
+d = int(sys.argv[1])
+g, h = smg.StereoMolGraph(), smg.StereoMolGraph()
+for x, off in ((g, 0), (h, 100)):
+    x.add_atom(off, "Cr")
+    for i in range(1, d + 1):
+        x.add_atom(off + i, "C")
+        x.add_bond(off + i, off)
+try:
+    print("RESULT", g == h)
+except MemoryError:
+    print("RESULT MemoryError")
+except Exception as e:
+    print("RESULT", type(e).__name__)
+"""
+
+
+def high_degree(rep, tier):
+    """a centre with twelve neighbours and no descriptor (bis(benzene)chromium-like star) against its renamed copy, in a
+    subprocess with a capped address space (the unchanged library builds all 12! neighbour orders)"""
+    cap = "3" if tier == "quick" else "6"
+    env = dict(os.environ)
+    try:
+        p = subprocess.run([sys.executable, "-c", HIGH_DEGREE_SRC, "12", cap], capture_output=True, text=True, timeout=400, env=env)
+        out = [l for l in p.stdout.splitlines() if l.startswith("RESULT")]
+        res = out[-1].split(None, 1)[1] if out else "no-result:" + p.stderr[-200:]
+    except subprocess.TimeoutExpired:
+        res = "timeout"
+    if res != "True":
+        rep.violation(f"C01|eq-raises|high-degree-centre-without-descriptor|StereoMolGraph|{res.split(':')[0]}",
+                      f"a StereoMolGraph star with a 12-coordinate centre compared with its renamed copy: {res} "
+                      f"(address space capped at {cap} GB)", {"degree": 12, "cap_gb": cap})
+    return 1
+
+
 def run(prop, tier):
     rep = Reporter(prop, tier)
     tot, per, samples = iso.collect(prop, tier, rep)
@@ -175,6 +214,8 @@ def run(prop, tier):
         extra_eval += wl["hard_pairs"] + wl["auto_pairs"]
         tot["states"] += wl["states"]
         tot["generated"] += wl["generated"]
+    if prop == "C01":
+        extra["high_degree_centre"] = high_degree(rep, tier)
     if prop in ("C01", "C02"):
         from . import vf2trace
         ve = vf2trace.collect_eq(prop, tier, rep, common.seed())
